@@ -103,7 +103,9 @@ func (o WorkerGroupConf) CanContinueOnError(err error) bool {
 
 		return false
 	default:
-		o.ErrorHandler(err)
+		if !ers.Is(err, o.ExcludedErrors...) {
+			o.ErrorHandler(err)
+		}
 		return o.ContinueOnError
 	}
 }
